@@ -84,8 +84,8 @@ META = {
         "assumptions": ["hard I/O errors and truncation are not claimed: C19 does not speak about failing streams"],
     },
     "C20": {
-        "technique": "deterministic simulation: harness-side tallies of lookups / loader invocations / automatic removals vs Stats() snapshots (exact in sequential runs)",
-        "level_text": "Seeded search with a stats recorder attached; after generated operation sequences with injected loader outcomes the Stats() snapshot must equal the harness tallies exactly (hits, load successes/failures), misses up to the documented ambiguity of panicking computes, evictions within [Overflow, Overflow+Expiration].",
+        "technique": "deterministic simulation: harness-side tallies of lookups / loader invocations / automatic removals vs Stats() snapshots (exact in sequential runs, totals at quiescence in seeded concurrent schedules with expiry and background reloads)",
+        "level_text": "Seeded search with a stats recorder attached; after generated operation sequences with injected loader outcomes the Stats() snapshot must equal the harness tallies exactly (hits, load successes/failures), misses up to the documented ambiguity of panicking computes, evictions within [Overflow, Overflow+Expiration]. Three concurrent engines check the totals at quiescence (hits+misses = lookups performed by the counting operations, load successes+failures = loader invocations, evictions vs removal events): plain; with expiry, clock steps and otter's ticker-driven clean-up; and with refresh on asynchronous executors, where reloads run in the background while clients replace or invalidate the entry (no background work may touch the lookup counters).",
         "level_note": SEQ_NOTE,
         "rule": "one case = (configuration with stats, operation sequence). Non-trivial: loader invocations, hits and misses all occurred. Distinct: hash of the case.",
         "components": comp(),
